@@ -88,7 +88,7 @@ inductive Emitter where
 structure SwapLog where
   emitter : Emitter
   src     : String
-  to      : String
+  rcv     : String
   amount  : Int
   deriving Repr, Inhabited
 
@@ -523,7 +523,7 @@ it, and the hook resolves the token **by the emitting contract**; a log of any o
 no ERC20 effect here and is ignored by the hook (`getTokenByContract(log.Address)` fails) -/
 def stepLog (s : State) (l : SwapLog) : R :=
   match l.emitter with
-  | .k c => stepHookSwap s l.src c l.to l.amount
+  | .k c => stepHookSwap s l.src c l.rcv l.amount
   | .u _ => .ok s
 
 /-- the logs of a receipt, in order; any failure reverts the whole transaction -/
